@@ -31,6 +31,8 @@ type Obligation struct {
 	StructMsg string
 	Props     []string
 	Vars      []string // symbols of interest for the model
+	BeforeUpto  int    // cover after a call: prefix length and reach before the call
+	BeforeReach Term
 }
 
 type allocInfo struct {
@@ -163,6 +165,33 @@ func (vc *VC) oblige(st *State, kind, name string, goal Term, pos token.Pos, src
 	// after the check, the goal is assumed on this path
 	vc.assume(st, goal)
 	return o
+}
+
+// cover: a reachability check. Expected answer sat (or unknown); unsat means the
+// assumptions made so far are contradictory on this path and everything proved after it
+// would be vacuous.
+func (vc *VC) coverCall(beforeUpto int, beforeReach Term, st *State, name string, pos token.Pos) {
+	vc.cover(st, name, pos)
+	o := vc.obls[len(vc.obls)-1]
+	o.BeforeUpto = beforeUpto
+	o.BeforeReach = beforeReach
+}
+
+func (vc *VC) cover(st *State, name string, pos token.Pos) {
+	full := shortPkg(vc.root.Pkg.Pkg.Path()) + "." + funcKey(vc.root) + "#cover:" + name
+	vc.oblNames[full]++
+	if n := vc.oblNames[full]; n > 1 {
+		full = fmt.Sprintf("%s#%d", full, n)
+	}
+	o := &Obligation{Name: full, Kind: "vacuity", Func: vc.rootKey, Goal: "false", Reach: st.reach, Upto: len(vc.cmds), vc: vc}
+	if pos.IsValid() {
+		p := vc.eng.fset.Position(pos)
+		o.Pos = fmt.Sprintf("%s:%d", strings.TrimPrefix(p.Filename, vc.eng.repo+"/"), p.Line)
+	}
+	if vc.contract != nil {
+		o.Props = vc.contract.Props
+	}
+	vc.obls = append(vc.obls, o)
 }
 
 func (vc *VC) script(o *Obligation, model bool) string {
